@@ -1,5 +1,5 @@
 (* C12 correspondence cases: what the implementation answered, to be compared with the model *)
-From FB Require Export C12.Model.
+From FB Require Export C12.Model C12.ModelForest.
 From FB Require Import C12.TheoryRT.   (* only for the decidable hypothesis enigma_okb / dir_okb *)
 
 (* code points below 128 as constants: the harness prints `c67` instead of `67` (a numeral costs a
@@ -22,16 +22,17 @@ Definition c112 : N := 112. Definition c113 : N := 113. Definition c114 : N := 1
 Definition c120 : N := 120. Definition c121 : N := 121. Definition c122 : N := 122. Definition c123 : N := 123. Definition c124 : N := 124. Definition c125 : N := 125. Definition c126 : N := 126. Definition c127 : N := 127.
 
 (* What is compared how.
-   - what `read_into` / `enigma_dir::read` return: the property and Th 1 speak of the classes, members
-     and parameters a read yields, not of the IndexMap iteration order, so read results are compared
-     up to insertion order at every level (Quill.Mappings.equivb: both sides canonicalised);
+   - what `read_into` / `enigma_dir::read` return is compared EXACTLY, IndexMap insertion order
+     included (classes in the order the reader adds them: nested classes before the class they are
+     nested in, members in the order of the text, files in sorted path order) — Th 7 (read_exact)
+     states that order;
    - what `write_all` returns: the `#` lines (the header comment write_all puts in front of every
      file's part) are no part of the property: the texts are compared line by line after dropping
      the lines that start with `#` (the reader drops them too);
    - `write_one` and the files of `enigma_dir::write` are compared byte for byte: the property says
      the output is deterministic and sorted, and the model follows the code line by line
      (correspondence proper). *)
-Definition classes_eqb (a b : list class) : bool := equivb (mkMappings [] None a) (mkMappings [] None b).
+Definition classes_eqb (a b : list class) : bool := list_eqb class_eqb a b.
 Definition no_hash_lines (t : str) : list str :=
   filter (fun l => negb (starts_with [cHASH] l)) (split_on cLF t).
 Definition text_eqb (a b : str) : bool := list_eqb str_eqb (no_hash_lines a) (no_hash_lines b).
@@ -56,7 +57,12 @@ Inductive case :=
        (ones : list (str * res str))
        (dirw : option (res (list (str * str)))) (dirback : option (res (list class)))
 | CRead (text : str) (r : res (list class))                (* enigma_file::read_into on fresh mappings *)
-| CReadDir (d : list (str * str)) (r : res (list class)).  (* enigma_dir::read of a directory with these files *)
+| CReadS (text : str) (r : res (list class))               (* the same, compared with the structural decoder read_struct *)
+| CReadInto (acc : list class) (text : str) (r : res (list class))   (* read_into on mappings that already hold [acc] *)
+| CReadBytes (bs : list N) (r : res (list class))          (* read_into on raw bytes (possibly not UTF-8) *)
+| CReadDir (d : list (str * str)) (r : res (list class))   (* enigma_dir::read of a directory with these files *)
+| CReadPath (p : fs_node) (r : res (list class))           (* enigma_dir::read of a missing path / a plain file *)
+| CWriteDir (M : list class) (r : res (list (str * str))). (* enigma_dir::write alone (names special to the file system) *)
 
 Definition check (c : case) : bool :=
   match c with
@@ -76,5 +82,10 @@ Definition check (c : case) : bool :=
           | None, _ => true
           end)
   | CRead t r => res_eqb classes_eqb (read_all t) r
+  | CReadS t r => res_eqb classes_eqb (read_struct [] t) r
+  | CReadInto acc t r => res_eqb classes_eqb (read_into acc t) r
+  | CReadBytes bs r => res_eqb classes_eqb (read_bytes [] bs) r
   | CReadDir d r => res_eqb classes_eqb (read_dir d) r
+  | CReadPath p r => res_eqb classes_eqb (read_path p) r
+  | CWriteDir M r => dir_res_eqb (write_dir M) r
   end.
